@@ -452,6 +452,140 @@ def check_csum_guard(rep, mod, flags):
             R.check(bad is None, where, '%s: %s' % (fn, bad), key=key, sample='%s: update for every non-zero flag' % fn)
 
 
+def check_adler_bam1(rep, mod):
+    """Between calls the zlib checksum is kept as B << 16 | (A - 1 mod 65521), so that it starts at 0 like the crc.  Three places convert: isal_adler32_bam1 (to the true
+    Adler-32 before the kernel, back afterwards), the trailer writer and the inflate finaliser (stored -> true).  Each is a function of one 16-bit half with a single special
+    value, and each is evaluated here for EVERY stored value 0..65520 (constant interpretation of the IR with the stored word as the only known input; the inner isal_adler32
+    call stands for an update with no bytes and hands back its first argument)."""
+    import constinterp
+    MOD = 65521
+    R = rep.rule('T-ADLER-BAM1', 'the conversions of the stored zlib checksum B << 16 | (A - 1 mod 65521): for every stored low half s in 0..65520 (two values of B) isal_adler32_bam1 hands (s + 1) mod 65521 '
+                 'with B unchanged to the Adler-32 kernel and turns the kernel\'s result back into the stored word (identity for an empty update); the value the trailer writer passes to store_be_u32 and the value '
+                 'finalize_adler32 stores are B << 16 | (s + 1) mod 65521 - evaluated by constant interpretation of the IR for all 65521 x 2 inputs each', floor=3, unit='conversions')
+    co_z = c19.field_offsets('struct isal_zstream', ['internal_state.crc'])['internal_state.crc']
+    co_i = c19.field_offsets('struct inflate_state', ['crc'])['crc']
+
+    def sweep(name, run):
+        R.instance()
+        bad = None
+        for B in (0, 0xABCD):
+            for s_ in range(MOD):
+                got = run((B << 16) | s_)
+                want = (B << 16) | ((s_ + 1) % MOD)
+                if got is None:
+                    raise AnalysisBroken('T-ADLER-BAM1: %s could not be evaluated for stored value %#x' % (name, (B << 16) | s_))
+                if got != want:
+                    bad = ((B << 16) | s_, got, want)
+                    break
+            if bad:
+                break
+        return bad
+    # 1. isal_adler32_bam1
+    f = mod.funcs.get('isal_adler32_bam1')
+    if f is None:
+        raise AnalysisBroken('isal_adler32_bam1 not found')
+    state = {}
+
+    class IP(constinterp.Interp):
+        def exec(self, i, env):
+            if i.op == 'call' and i.callee == 'isal_adler32':
+                state['arg'] = self.val(i.ops[0], env)
+                env[i.dst] = state['arg']
+                return
+            return super().exec(i, env)
+
+    def obs(i, env, ip):
+        if i.op == 'ret':
+            state['ret'] = ip.val(i.ops[-1].split()[-1], env)
+
+    def run_bam1(x):
+        state.clear()
+        IP(mod, f, obs, params={f.params[0][1]: x}).run()
+        a, r = state.get('arg'), state.get('ret')
+        if a in (None, constinterp.TOP) or r in (None, constinterp.TOP):
+            return None
+        state['back'] = r & 0xffffffff
+        return a & 0xffffffff
+    bad = sweep('isal_adler32_bam1', run_bam1)
+    where = mod.where(f, None)
+    R.check(bad is None, where, 'isal_adler32_bam1: for the stored word %#010x the Adler-32 kernel is given %#010x, expected %#010x (A = stored + 1 mod 65521, B unchanged): the running zlib checksum is wrong from this '
+            'call on' % (bad or (0, 0, 0)), key='T-ADLER-BAM1|bam1|to', sample='isal_adler32_bam1: stored -> true for all 65521 values')
+    R.instance()
+    back_bad = None
+    for B in (0, 0xABCD):
+        for s_ in range(MOD):
+            x = (B << 16) | s_
+            if run_bam1(x) is None or state.get('back') != x:
+                back_bad = (x, state.get('back'))
+                break
+        if back_bad:
+            break
+    R.check(back_bad is None, where, 'isal_adler32_bam1: an update with no bytes turns the stored word %#010x into %s: converting the kernel\'s result back to B << 16 | (A - 1 mod 65521) is wrong for this value, '
+            'so the checksum carried to the next call (and the trailer) is wrong whenever a call ends there' % (back_bad[0] if back_bad else 0, ('%#010x' % back_bad[1]) if back_bad and isinstance(back_bad[1], int) else 'an unknown value'),
+            key='T-ADLER-BAM1|bam1|back', sample='isal_adler32_bam1: true -> stored is the inverse for all 65521 values')
+    # 2. the two finalisers: slice from the load of the stored word to the value written
+    for fn, co, sink in (('write_trailer', co_z, 'call:store_be_u32'), ('finalize_adler32', co_i, 'store:crc')):
+        g = mod.funcs.get(fn)
+        if g is None:
+            raise AnalysisBroken('%s not found' % fn)
+        P = irrules.prov(mod, g)
+        pi = 0
+        crc_atom = ('param', pi, co)
+        sinks = []
+        for i in g.all_insns():
+            if sink.startswith('call:') and i.op == 'call' and i.callee == sink[5:] and ('mem', crc_atom) in P.deps(i.ops[1]):
+                sinks.append((i, i.ops[1]))
+            if sink.startswith('store:') and i.op == 'store' and P.atoms(i.ops[1]) == {crc_atom} and ('mem', crc_atom) in P.deps(i.ops[0]):
+                sinks.append((i, i.ops[0]))
+        if len(sinks) != 1:
+            raise AnalysisBroken('T-ADLER-BAM1: %s: expected one place where the converted checksum is written, found %d' % (fn, len(sinks)))
+        si, sv = sinks[0]
+        # backward slice of sv within the function (pure arithmetic down to loads of the stored word / phis of such)
+        order, seen = [], set()
+
+        def visit(v):
+            v = v.split()[-1]
+            if v in seen or re.match(r'^-?\d+$', v):
+                return
+            seen.add(v)
+            d = g.defs.get(v)
+            if d is None:
+                raise AnalysisBroken('T-ADLER-BAM1: %s: value %s has no definition' % (fn, v))
+            if d.op == 'load':
+                if P.atoms(d.ops[0]) != {crc_atom}:
+                    raise AnalysisBroken('T-ADLER-BAM1: %s: the written value also depends on %s' % (fn, d.ops[0]))
+                order.append(d)
+                return
+            if d.op == 'phi':
+                for x, _ in d.extra['incoming']:
+                    visit(x)
+                order.append(d)
+                return
+            if d.op not in ('add', 'sub', 'and', 'or', 'xor', 'urem', 'zext', 'sext', 'trunc', 'shl', 'lshr', 'select', 'icmp', 'mul'):
+                raise AnalysisBroken('T-ADLER-BAM1: %s: operation %s in the conversion is not modelled' % (fn, d.op))
+            for o in d.ops:
+                visit(o)
+            order.append(d)
+        visit(sv)
+        ip = constinterp.Interp(mod, g, None)
+
+        def run_fin(x, order=order, ip=ip, sv=sv):
+            env = {}
+            for d in order:
+                if d.op == 'load':
+                    env[d.dst] = x
+                elif d.op == 'phi':
+                    vals = {ip.val(v, env) for v, _ in d.extra['incoming']}
+                    env[d.dst] = vals.pop() if len(vals) == 1 else constinterp.TOP
+                else:
+                    ip.exec(d, env)
+            r = ip.val(sv.split()[-1], env)
+            return None if r == constinterp.TOP else r & 0xffffffff
+        bad = sweep(fn, run_fin)
+        R.check(bad is None, mod.where(g, si), '%s: the stored zlib checksum %#010x is converted to %#010x, RFC 1950 Adler-32 is %#010x (A = stored + 1 mod 65521): the trailer / the exposed checksum is wrong for inputs that '
+                'end on this value' % ((fn,) + (bad or (0, 0, 0))), key='T-ADLER-BAM1|%s' % fn, sample='%s: B << 16 | (s + 1) mod 65521 for all 65521 values' % fn)
+
+
 def main(tier):
     rep = Report('C11', tier, level='other')
     rep.undecided = UNDECIDED
@@ -475,6 +609,7 @@ def main(tier):
     import crctwins
     rep.attempt(crctwins.check, rep)      # the gzip trailer is the result of crc32_gzip_refl, whichever twin the CPU gets
     rep.attempt(check_csum_range, rep, mod)
+    rep.attempt(check_adler_bam1, rep, mod)
     rep.attempt(check_csum_guard, rep, mod, flags)
     rep.attempt(check_state_after_compare, rep, mod)
     import c10
